@@ -1302,6 +1302,17 @@ def _propagate(ctx, f, res: Result, selfp: T, tpar: T, mode: str):
         users = [x for x in res.events if x.kind == "call" and
                  _dot_operands(x.data["result"]) ==
                  (e.data["result"], tpar)]
+        if not users:
+            # the product written with `@` is no call event: looked up in
+            # the values that are stored / appended
+            for x in res.events:
+                for v_ in list(x.data.get("args") or ()) + [
+                        x.data.get("value")]:
+                    if isinstance(v_, T) and any(
+                            _dot_operands(y) == (e.data["result"], tpar)
+                            for y in v_.walk()):
+                        users.append(x)
+                        break
         (l1, o1, c1), (l2, o2, c2) = s1, s2
         if l1 != l2 or c1 is None or c2 is None:
             continue
@@ -1352,7 +1363,24 @@ def _propagate(ctx, f, res: Result, selfp: T, tpar: T, mode: str):
         if w.op == "sub" and w.args[1] is T("slice", tm.NONE, const(1),
                                            tm.NONE):
             ok3 = True
+        # itertools.accumulate(..., initial=poses[0]) starts with it too;
+        # other library folds are not modelled
+        if not ok3:
+            acc_ = [x for x in e.data["value"].walk()
+                    if is_call_to(x, "itertools.accumulate")]
+            if acc_:
+                init_ = dict(acc_[0].args[2]).get("initial")
+                if init_ is not None and init_.op == "sub" and \
+                        tm.is_const(init_.args[1], 0):
+                    ok3 = True
+                else:
+                    ok3 = None
         every.append((ok3, e))
+    if any(k is None for k, _ in every):
+        ctx.undecidable("C08.5", f, "transform[propagate]: the new pose "
+                        "list is built by a library fold whose start value "
+                        "is not read")
+        every = [(k, e) for k, e in every if k is not None]
     # on *every* path of this mode (also for a single pose, an empty tail)
     ok3 = bool(every) and all(k for k, _ in every)
     ctx.ob("C08.5", [e for k, e in every if not k][0] if every and not ok3
